@@ -84,11 +84,15 @@ def build_cases(tier):
                     cases.append({"mode": "shared", "target": "class", "prefix": list(p), "suffix": list(s), "state": cstate,
                                   "astate": astate, "order": order, "newline": True})
     # the class target is nested (Outer.ConfigClass); a top-level namesake (class / assignment) stands before or after Outer
-    for namesake in ("none", "class_before", "assign_before", "class_after"):
+    for namesake in ("none", "class_before", "assign_before", "class_after", "function_after", "function_and_class_after"):
         for state in ("absent", "stale", "agree"):
             for sib in (False, True):
                 cases.append({"mode": "nested", "target": "class", "prefix": [], "suffix": [], "state": state, "newline": True,
                               "namesake": namesake, "siblings": sib})
+    # the file named for two kinds does not exist yet
+    for order in ("class_first", "argparse_first"):
+        cases.append({"mode": "shared", "target": "class", "prefix": [], "suffix": [], "state": "absent", "astate": "absent",
+                      "order": order, "newline": True, "file_missing": True})
     mem = [(p, s) for p in seqs(len(MEMBERS), 2) for s in seqs(len(MEMBERS), 2) if not set(p) & set(s)]
     for p, s in mem:
         for state in ("absent", "stale", "agree"):
@@ -259,9 +263,12 @@ def _run_shared(self, case):
     src = "\n".join(parts)
     if src.strip():
         src = src.rstrip("\n") + "\n"
-    P.write("class", src)
+    P.write("class", None if case.get("file_missing") else src)
     base = {"mode": "shared", "state": case["state"], "astate": case["astate"], "order": case["order"],
             "prefix": ">".join(ITEMS[i][0] for i in case["prefix"]) or "-", "suffix": ">".join(ITEMS[i][0] for i in case["suffix"]) or "-"}
+    if case.get("file_missing"):
+        base["file_missing"] = True
+        src = ""
     exc, rep, out = P.sync("function", list(pj.KINDS), "api")
     after = P.read("class")
     sites = []
@@ -313,7 +320,9 @@ def _run_nested(self, case):
     if ns == "assign_before":
         parts.append(NAMESAKE_ASSIGN)
     parts.append(outer)
-    if ns == "class_after":
+    if ns in ("function_after", "function_and_class_after"):
+        parts.append("def load(a, z=3):\n    return a\n")
+    if ns in ("class_after", "function_and_class_after"):
         parts.append(NAMESAKE_CLASS)
     src = "\n\n".join(p.rstrip("\n") for p in parts) + "\n"
     P.write("class", src)
